@@ -206,7 +206,12 @@ pub fn parse_docs(attrs: &[Attribute]) -> Result<String> {
         0 => String::new(),
 
         // Multi-line block doc comment (/** ... */)
-        1 if doc_attrs[0].contains('\n') => format!("/**{}*/\n", &doc_attrs[0]),
+        1 if doc_attrs[0].contains('\n') => {
+            let mut buffer = String::from("/**");
+            push_doc_escaped(&mut buffer, &doc_attrs[0]);
+            buffer.push_str("*/\n");
+            buffer
+        }
 
         // Regular doc comment(s) (///) or single line block doc comment
         _ => {
@@ -215,7 +220,7 @@ pub fn parse_docs(attrs: &[Attribute]) -> Result<String> {
 
             while let Some(line) = lines.next() {
                 buffer.push_str(" *");
-                buffer.push_str(line);
+                push_doc_escaped(&mut buffer, line);
 
                 if lines.peek().is_some() {
                     buffer.push('\n');
@@ -225,6 +230,20 @@ pub fn parse_docs(attrs: &[Attribute]) -> Result<String> {
             buffer
         }
     })
+}
+
+/// Appends the text of a doc comment to a block comment under construction.
+/// `*/` would end that comment early, so a `/` which follows a `*` is written as `\/`.
+fn push_doc_escaped(buffer: &mut String, doc: &str) {
+    let mut after_star = buffer.ends_with('*');
+
+    for c in doc.chars() {
+        if c == '/' && after_star {
+            buffer.push('\\');
+        }
+        buffer.push(c);
+        after_star = c == '*';
+    }
 }
 
 #[cfg(feature = "serde-compat")]
